@@ -167,6 +167,19 @@ impl PatProp for Safety {
                     }
                     let _ = s;
                 }
+                // collecting with "no limit" spelled usize::MAX, and the size_hint contract of the iterators
+                let n_all = re.splitn(t, usize::MAX).collect::<Vec<_>>().len();
+                for (name, (lo, hi), n) in [
+                    ("splitn(usize::MAX)", re.splitn(t, usize::MAX).size_hint(), n_all),
+                    ("splitn(2)", re.splitn(t, 2).size_hint(), re.splitn(t, 2).count()),
+                    ("split", re.split(t).size_hint(), re.split(t).count()),
+                    ("find_iter", re.find_iter(t).size_hint(), re.find_iter(t).count()),
+                    ("captures_iter", re.captures_iter(t).size_hint(), re.captures_iter(t).count()),
+                ] {
+                    if lo > n || hi.map_or(false, |h| h < n) {
+                        return Err(("size_hint".into(), format!("{}: size_hint ({}, {:?}) but {} items", name, lo, hi, n)));
+                    }
+                }
                 for lim in 0..3 {
                     for s in re.splitn(t, lim) {
                         let _ = s;
